@@ -114,6 +114,8 @@ struct Out {
     send_errors_after: u32,
     viol: Vec<(&'static str, String)>,
     keep: Vec<RawPeer>,
+    keepl: Vec<crate::world::RawListener>,
+    lib_side: usize,
 }
 
 /// scripted REP bystanders answer every request they have received and not yet answered
@@ -165,6 +167,14 @@ async fn drain(sock: &mut AnySock, kind: Kind, o: &Rc<RefCell<Out>>, after_obs: 
 }
 
 fn cut_world(ctx: &mut Ctx) {
+    cut_impl(ctx, false)
+}
+/// the same grid with the victim on the far end of a connection the socket opened itself
+fn cut_world_connect(ctx: &mut Ctx) {
+    cut_impl(ctx, true)
+}
+
+fn cut_impl(ctx: &mut Ctx, connecting: bool) {
     let kind = ALL_KINDS[(ctx.idx % 9) as usize];
     let fault = FAULTS[((ctx.idx / 9) % 4) as usize];
     let len = stream_len(kind);
@@ -214,12 +224,33 @@ fn cut_world(ctx: &mut Ctx) {
         }
         // the victim: its stream up to the cut, then the fault
         let s = victim_stream(kind);
-        let mut victim = RawPeer::connect(&ep).expect("connect");
-        o2.borrow_mut().victim_conn = Some(victim.conn.clone());
-        if matches!(kind, Kind::Pub | Kind::Xpub) {
-            victim.conn.set_io(1, |io| io.wyield_pm = 0);
+        let mut victim;
+        if connecting {
+            // the socket connects out; the victim accepts, sends its stream up to the cut at once
+            let (l, lep) = crate::world::RawListener::bind("tcp://127.0.0.1:0").expect("listen");
+            let s2 = s.clone();
+            let acc = rt::task::spawn_local("victim-acceptor", async move {
+                let mut p = l.accept().await.expect("accept");
+                let _ = p.send(&s2[..off]).await;
+                (p, l)
+            });
+            // connect() returns once the handshake has completed or failed; with a cut inside the
+            // handshake it only returns when the fault lands, so it runs beside the fault
+            let vic = rt::future::or_idle(sock.connect(&lep)).await;
+            let _ = vic;
+            let (p, l) = acc.await.expect("acceptor");
+            o2.borrow_mut().keepl.push(l);
+            victim = p;
+            o2.borrow_mut().victim_conn = Some(victim.conn.clone());
+        } else {
+            victim = RawPeer::connect(&ep).expect("connect");
+            o2.borrow_mut().victim_conn = Some(victim.conn.clone());
+            if matches!(kind, Kind::Pub | Kind::Xpub) {
+                victim.conn.set_io(1, |io| io.wyield_pm = 0);
+            }
+            let _ = victim.send(&s[..off]).await;
         }
-        let _ = victim.send(&s[..off]).await;
+        let lib_side = 1 - victim.side;
         // let the socket consume what was sent (handshake, messages) before the fault lands,
         // in half of the cases; in the other half the fault races with the consumption
         if (off / 3) % 2 == 0 {
@@ -233,11 +264,11 @@ fn cut_world(ctx: &mut Ctx) {
                 o2.borrow_mut().keep.push(victim);
             }
             Fault::ReadError => {
-                vconn.inject_read_error(0, std::io::ErrorKind::ConnectionAborted);
+                vconn.inject_read_error(1 - lib_side, std::io::ErrorKind::ConnectionAborted);
                 o2.borrow_mut().keep.push(victim);
             }
             Fault::WriteError => {
-                vconn.inject_write_error(1, std::io::ErrorKind::ConnectionAborted);
+                vconn.inject_write_error(lib_side, std::io::ErrorKind::ConnectionAborted);
                 o2.borrow_mut().keep.push(victim);
             }
         }
@@ -265,10 +296,11 @@ fn cut_world(ctx: &mut Ctx) {
         }
         rt::task::idle().await;
         // ---- observation point: from here on the victim must be forgotten --------------------
-        o2.borrow_mut().victim_tap_at_observation = vconn.tap_len_from(1);
+        o2.borrow_mut().victim_tap_at_observation = vconn.tap_len_from(lib_side);
+        o2.borrow_mut().lib_side = lib_side;
         o2.borrow_mut().fired_at_observation = match fault {
-            Fault::ReadError => !vconn.pending_faults(0).0,
-            Fault::WriteError => !vconn.pending_faults(1).1,
+            Fault::ReadError => !vconn.pending_faults(1 - lib_side).0,
+            Fault::WriteError => !vconn.pending_faults(lib_side).1,
             _ => true,
         };
         // bystander traffic, round 1, and further receives: no more errors may surface
@@ -302,7 +334,7 @@ fn cut_world(ctx: &mut Ctx) {
             }
         }
         rt::task::idle().await;
-        o2.borrow_mut().victim_tap_final = vconn.tap_len_from(1);
+        o2.borrow_mut().victim_tap_final = vconn.tap_len_from(lib_side);
         o2.borrow_mut().done = true;
         world::park().await;
         drop(sock);
@@ -310,7 +342,7 @@ fn cut_world(ctx: &mut Ctx) {
     });
     let end = ctx.sim.run(600_000);
     let pos = position_name(kind, off);
-    let tag = format!("{} with {} bystander(s); victim cut {} (offset {off} of {len}) by {:?}", kind.name(), nby, pos, fault);
+    let tag = format!("{} with {} bystander(s); victim{} cut {} (offset {off} of {len}) by {:?}", kind.name(), nby, if connecting { " (connected to by the socket)" } else { "" }, pos, fault);
     let o = out.borrow();
     if end == rt::RunEnd::Budget {
         ctx.violation(&format!("no_quiescence:{}:{:?}", kind.name(), fault), format!("{tag}: the socket spins (no quiescence within the step budget)"));
@@ -333,8 +365,8 @@ fn cut_world(ctx: &mut Ctx) {
         // an injected error that never fired (the socket had no reason to read / write on that
         // connection) leaves a healthy peer: nothing to forget, nothing to release
         let fired = match (&o.victim_conn, fault) {
-            (Some(v), Fault::ReadError) => !v.pending_faults(0).0,
-            (Some(v), Fault::WriteError) => !v.pending_faults(1).1,
+            (Some(v), Fault::ReadError) => !v.pending_faults(1 - o.lib_side).0,
+            (Some(v), Fault::WriteError) => !v.pending_faults(o.lib_side).1,
             _ => true,
         };
         if !fired {
@@ -350,8 +382,8 @@ fn cut_world(ctx: &mut Ctx) {
         }
         // released
         if let Some(v) = &o.victim_conn {
-            if fired && !v.released(1) {
-                let st = v.side_state(1);
+            if fired && !v.released(o.lib_side) {
+                let st = v.side_state(o.lib_side);
                 ctx.violation(&format!("not_released:{}:{:?}", kind.name(), fault), format!("{tag}: at quiescence the socket still holds the victim's connection (read half dropped: {}, write half dropped: {})", st.read_half_dropped.is_some(), st.write_half_dropped.is_some()));
             }
         }
@@ -447,6 +479,7 @@ pub fn def() -> PropDef {
         assumptions: &["observation point: the socket has been polled to quiescence after the fault (recv drained / sends attempted); 'released' is asserted only after that", "TCP half-close is not injected (its meaning for 'peer is gone' is ambiguous in the statement)"],
         strata: vec![
             Stratum { name: "cut_world", quick: space + 20_000, thorough: space * 40, exhaustive: (false, false), run: cut_world, what: "victim cut at every offset x fault kind x socket type, bystanders alive" },
+            Stratum { name: "cut_world_connect", quick: space / 2 + 5_000, thorough: space * 10, exhaustive: (false, false), run: cut_world_connect, what: "the same grid with the victim at the far end of a connection opened by connect()" },
             Stratum { name: "churn", quick: 9_000, thorough: 300_000, exhaustive: (false, false), run: churn, what: "repeated connect/disconnect cycles, retained connections" },
         ],
     }
